@@ -27,6 +27,9 @@ def scratch_copy() -> str:
     shim = os.path.join(d, "shim")
     os.makedirs(shim)
     shutil.copy(os.path.join(VERIF, "harness", "compat", "fc_compat.py"), shim)
+    os.makedirs(os.path.join(shim, "sc"))
+    with open(os.path.join(shim, "sc", "sitecustomize.py"), "w") as fh:
+        fh.write("import os, sys\nsys.path.insert(0, os.path.dirname(os.path.dirname(os.path.abspath(__file__))))\nimport fc_compat\n")
     return d
 
 
